@@ -419,14 +419,24 @@ void deliver(World &w, const std::string &s, const std::vector<long> &cuts, size
 // A unit answered by one of the library's own status or queue queries: what it prints is the status the history left
 // behind, which the property exempts ("nothing but status and errors carries over").
 bool reads_status(const World &w, size_t first_msg) {
+    static const char *status_headers[] = {"*ESR", "*ESE?", "*STB", "*SRE?", "SYSTERR", "SYSTEMERR", "STAT"};
     for (size_t mi = first_msg; mi < w.msgs.size(); mi++)
         for (const UnitRec &u : w.msgs[mi].units) {
-            if (u.invocations != 0 || u.out.empty()) continue;
-            std::string t;
-            for (char c : u.text)
-                if (c != ':' && c != ' ' && c != '\t') t += (char) toupper((unsigned char) c);
-            if (t.rfind("*IDN", 0) == 0 || t.rfind("*OPC", 0) == 0 || t.rfind("*TST", 0) == 0 || t.rfind("SYSTVERS", 0) == 0 || t.rfind("SYSTEMVERS", 0) == 0) continue;
-            return true;
+            // by the header as written (and as composed): the library's status and queue queries are ordinary table entries
+            for (const std::string *src : {&u.text, &u.cmd_raw}) {
+                std::string t;
+                for (char c : *src) {
+                    if (c == ' ' || c == '\t') {
+                        if (!t.empty()) break;
+                        continue;
+                    }
+                    if (c != ':') t += (char) toupper((unsigned char) c);
+                }
+                for (const char *h : status_headers) {
+                    size_t n = strlen(h);
+                    if (t.compare(0, n, h) == 0 && (h[n - 1] == '?' || t.find('?') != std::string::npos)) return true;
+                }
+            }
         }
     return false;
 }
